@@ -825,3 +825,49 @@ m("C12","newgauge-overwrites-existing","x/storage/keeper/gauges.go",
 ""","","C12/R2","gauge:id-collision","inverse of the gauge-merge fix")
 m("C04","newgauge-merge-records-double","x/storage/keeper/gauges.go",
   "pg.Coins = existing.Coins.Add(coins...)","pg.Coins = existing.Coins.Add(coins...).Add(coins...)","C04/R2","gauge-constructor:records-argument")
+
+# ---- round 4 of independent seeded changes (batch 1)
+from_patch("C01","seed4-verification-only-for-proof-type-zero","seeded/C01-verification-only-for-proof-type-zero/patch.diff","C01/R2","storage.MsgPostProof:prover","seed round 4")
+from_patch("C02","seed4-proof-refused-after-paid-term","seeded/C02-proof-refused-after-paid-term/patch.diff","C02/R6","refusal-reason","seed round 4")
+from_patch("C03","seed4-shares-rounded-to-nearest","seeded/C03-shares-rounded-to-nearest/patch.diff","C03/R9","payout-rounds-down","seed round 4")
+from_patch("C04","seed4-zero-ratio-replaced-by-default","seeded/C04-zero-ratio-replaced-by-default/patch.diff","C04/R10","params-getter-faithful","seed round 4")
+from_patch("C06","seed4-zero-ratio-replaced-by-default","seeded/C04-zero-ratio-replaced-by-default/patch.diff","C06/R6","storage:params-getter-faithful","seed round 4 (written against C04)")
+from_patch("C05","seed4-prover-list-presized-by-maxproofs","seeded/C05-prover-list-presized-by-maxproofs/patch.diff","C05/R4","make-size","seed round 4")
+from_patch("C06","seed4-params-cached-in-process","seeded/C06-params-cached-in-process/patch.diff","C06/R6","writes-through-keeper-field","seed round 4")
+from_patch("C07","seed4-plan-charged-under-canonical-address","seeded/C07-plan-charged-under-canonical-address/patch.diff","C07/R5","charge-key=stored-owner","seed round 4")
+from_patch("C08","seed4-name-getter-returns-subdomain-record","seeded/C08-name-getter-returns-subdomain-record/patch.diff","C08/R4","GetNames:getter-faithful","seed round 4")
+from_patch("C11","seed4-name-getter-returns-subdomain-record","seeded/C08-name-getter-returns-subdomain-record/patch.diff","C11/R8","GetNames:getter-faithful","seed round 4 (written against C08)")
+from_patch("C09","seed4-import-drops-bids-on-unregistered-names","seeded/C09-import-drops-bids-on-unregistered-names/patch.diff","C09/R7","import-every-element:Bids","seed round 4")
+from_patch("C19","seed4-import-drops-bids-on-unregistered-names","seeded/C09-import-drops-bids-on-unregistered-names/patch.diff","C19/R7","import-every-element:Bids","seed round 4 (written against C09)")
+from_patch("C10","seed4-owner-implies-edit-access","seeded/C10-owner-implies-edit-access/patch.diff","C10/R2","filetree.MsgPostFile:editor-gate","seed round 4")
+
+# mutants / benign refactors for the round-4 rules
+m("C13","staker-share-rounded-up","x/jklmint/keeper/mint.go",
+  'stakerCoinValue := stakerRatio.MulInt64(mintTokens).TruncateInt64()','stakerCoinValue := stakerRatio.MulInt64(mintTokens).Ceil().TruncateInt64()',"C13/R8","split:fee-collector:rounds-down")
+m("C04","pol-cut-rounded","x/storage/keeper/msg_server_buy_storage.go",
+  'polToken := sdk.NewCoin(toPay.Denom, polCut.TruncateInt())','polToken := sdk.NewCoin(toPay.Denom, polCut.RoundInt())',"C04/R9","cut-rounds-down")
+benign("C03","share-truncated-via-int64",[
+ ("x/storage/keeper/rewards.go","tokensValueOwed := networkPercentage.Mul(coin.Amount.ToDec()).TruncateInt()","tokensValueOwed := sdk.NewInt(networkPercentage.Mul(coin.Amount.ToDec()).TruncateInt64())"),
+])
+m("C19","storage-import-skips-empty-files","x/storage/genesis.go",
+  'for _, elem := range genState.FileList {','for _, elem := range genState.FileList {\n\t\tif len(elem.Proofs) == 0 {\n\t\t\tcontinue\n\t\t}',"C19/R7","storage:import-every-element")
+benign("C05","copy-buffer-sized-by-len-plus-one",[
+ ("x/storage/keeper/rewards.go","proofs := make([]string, len(file.Proofs))","proofs := make([]string, len(file.Proofs), len(file.Proofs)+1)"),
+])
+benign("C07","owner-and-charge-both-canonical",[
+ ("x/storage/keeper/msg_server_post_file.go","""	file := types.UnifiedFile{
+		Merkle:        msg.Merkle,
+		Owner:         msg.Creator,""","""	owner := msg.Creator
+	file := types.UnifiedFile{
+		Merkle:        msg.Merkle,
+		Owner:         owner,"""),
+ ("x/storage/keeper/msg_server_post_file.go","paymentInfo, found := k.GetStoragePaymentInfo(ctx, msg.Creator)","paymentInfo, found := k.GetStoragePaymentInfo(ctx, owner)"),
+])
+benign("C02","refusal-message-in-helper",[
+ ("x/storage/keeper/msg_server_postproof.go","""	if msg.ToProve != proof.ChunkToProve {""","""	if wrongChunk(msg.ToProve, proof.ChunkToProve) {"""),
+ ("x/storage/keeper/msg_server_postproof.go","func (k msgServer) PostProof(","""func wrongChunk(answered int64, challenged int64) bool {
+	return answered != challenged
+}
+
+func (k msgServer) PostProof("""),
+])
